@@ -74,6 +74,10 @@ def validate_path(mod, cfg, c, values):
     cc = core.run_path(mod.harness, cfg, mode="conc", values=values)
     if cc.aborted == "infeasible":
         return "tie", "assumption fails in float arithmetic"
+    if cc.aborted and cc.aborted.startswith("tie"):
+        return "tie", cc.aborted
+    if cc.aborted and cc.aborted.startswith("out-of-scope"):
+        return "tie", "concrete run left the scope (float tie)"
     if cc.aborted and cc.aborted.startswith("unsupported"):
         return "mismatch", cc.aborted
     conc_records = [(n, core._plain(v)) for n, v in cc.records]
@@ -81,8 +85,10 @@ def validate_path(mod, cfg, c, values):
     if [n for n, _ in sym_records] != [n for n, _ in conc_records] or \
             [n for n, _ in sym_obl] != [n for n, _ in conc_obl]:
         return "tie", "different branch structure (float tie)"
-    scale = _magnitude(values, sym_records)
+    scale = _magnitude(values, sym_records + [("scale", [float(x) for x in cc.scale])])
     for (n, a), (_, b) in zip(sym_records, conc_records):
+        if isinstance(a, (list, tuple)) and isinstance(b, (list, tuple)) and len(a) != len(b):
+            return "tie", "record %s differs in length (float tie)" % n
         if not _values_close(a, b, 1e-9, scale):
             return "mismatch", "record %s: symbolic %r vs concrete %r" % (n, a, b)
     for (n, a), (_, b) in zip(sym_obl, conc_obl):
@@ -120,7 +126,7 @@ def run_task(task):
                 "n_records": len(c.records),
                 "validation": None,
             }
-            if c.aborted is None or (c.aborted or "").startswith("exception"):
+            if c.aborted is None or c.aborted.startswith("exception") or c.aborted.startswith("out-of-scope"):
                 values = None
                 try:
                     c._ensure_model()
